@@ -457,8 +457,8 @@ where
 
             Submission::Tombstone { tombstone, stats } => self.tombstone_infos.push(TombstoneInfo { tombstone, stats }),
             Submission::Reinsertion { reinsertion } => {
-                // Skip reinsertion if the entry is not in the indexer.
-                if self.indexer.get(reinsertion.hash).is_some() {
+                // Skip reinsertion if the entry is not in the indexer, or has been updated in the meantime.
+                if self.indexer.get(reinsertion.hash).map(|addr| addr.sequence) == Some(reinsertion.sequence) {
                     report(self.buffer.as_mut().unwrap().push_slice(
                         &reinsertion.slice[..reinsertion.len],
                         reinsertion.hash,
